@@ -9,6 +9,22 @@ use oxidd_core::{
 mod segtree;
 use segtree::MinSegTree;
 
+/// Wrappers around the private helpers for out-of-tree proof harnesses
+#[cfg(feature = "verif-hooks")]
+pub(crate) mod verif_hooks {
+    pub use super::segtree::MinSegTree;
+    use oxidd_core::LevelNo;
+
+    /// see `sort_order()`
+    pub fn sort_order(num_levels: u32, input_order: impl IntoIterator<Item = LevelNo>) -> Vec<u32> {
+        super::sort_order(num_levels, input_order)
+    }
+    /// `bubble_sort()` without a manager; `swap(i)` is called for every swap of positions `i`, `i + 1`
+    pub fn bubble_sort(seq: &mut [u32], swap: &(dyn Fn(u32) + Sync)) {
+        super::bubble_sort(&(), seq, &|_: &(), i| swap(i))
+    }
+}
+
 /// Reorder the variables according to `order`
 ///
 /// Sequential version of [`set_var_order()`].
